@@ -87,6 +87,8 @@ def history_sessions(ctx, n):
         for _ in range(rng.randint(8, 40)):
             t = rng.randrange(len(sim.trx))
             s.cmd(t, "CMD " + FC.rand_cmd(rng, len(sim.trx)))
+            if rng.random() < 0.12:
+                s.repeat(t)              # the same datagram once more: executed again, answered again
             if rng.random() < 0.1:
                 s.tick()
         # power measurement on every carrier some transceiver is tuned to, whatever the others do
